@@ -253,8 +253,7 @@ oracle_search = propgen.budgeted([sweep_module_state, sweep_uninitialised, sweep
 ORACLE_BUDGET = {'quick': 30, 'thorough': 300}
 
 
-def oracle_at(unit, case, impl):
-    return None
+oracle_at = propgen.point_oracle(ID)      # the property's point checks at and around the mismatching input (harness/oracles/at_point.py)
 
 
 def diagnose(b):
